@@ -14,15 +14,24 @@ histories for a failing input and reports the violation either way).
 namespace SaoVerif
 
 theorem C04_decision_skeleton_as_modelled :
-    Generated.Skel.x_sao_keeper_msg_server_store_go = Expected.Skel.x_sao_keeper_msg_server_store_go ∧
-    Generated.Skel.x_sao_keeper_msg_server_complete_go = Expected.Skel.x_sao_keeper_msg_server_complete_go ∧
-    Generated.Skel.x_sao_keeper_msg_server_renew_go = Expected.Skel.x_sao_keeper_msg_server_renew_go ∧
-    Generated.Skel.x_market_keeper_pool_management_go = Expected.Skel.x_market_keeper_pool_management_go ∧
-    Generated.Skel.x_order_keeper_order_management_go = Expected.Skel.x_order_keeper_order_management_go ∧
-    Generated.Skel.x_model_keeper_data_management_go = Expected.Skel.x_model_keeper_data_management_go ∧
-    Generated.Skel.x_sao_keeper_timeout_management_go = Expected.Skel.x_sao_keeper_timeout_management_go ∧
-    Generated.Skel.x_sao_keeper_expire_management_go = Expected.Skel.x_sao_keeper_expire_management_go ∧
-    Generated.Skel.x_node_keeper_msg_server_claim_reward_go = Expected.Skel.x_node_keeper_msg_server_claim_reward_go := by
+    [Generated.Skel.x_sao_keeper_msg_server_store_go,
+     Generated.Skel.x_sao_keeper_msg_server_complete_go,
+     Generated.Skel.x_sao_keeper_msg_server_renew_go,
+     Generated.Skel.x_market_keeper_pool_management_go,
+     Generated.Skel.x_order_keeper_order_management_go,
+     Generated.Skel.x_model_keeper_data_management_go,
+     Generated.Skel.x_sao_keeper_timeout_management_go,
+     Generated.Skel.x_sao_keeper_expire_management_go,
+     Generated.Skel.x_node_keeper_msg_server_claim_reward_go] =
+    [Expected.Skel.x_sao_keeper_msg_server_store_go,
+     Expected.Skel.x_sao_keeper_msg_server_complete_go,
+     Expected.Skel.x_sao_keeper_msg_server_renew_go,
+     Expected.Skel.x_market_keeper_pool_management_go,
+     Expected.Skel.x_order_keeper_order_management_go,
+     Expected.Skel.x_model_keeper_data_management_go,
+     Expected.Skel.x_sao_keeper_timeout_management_go,
+     Expected.Skel.x_sao_keeper_expire_management_go,
+     Expected.Skel.x_node_keeper_msg_server_claim_reward_go] := by
   decide +kernel
 
 end SaoVerif
